@@ -231,3 +231,34 @@ def history_of(case):
     if isinstance(case, dict) and "history" in case:
         return list(case["history"])
     return [case]
+
+
+class LongLived:
+    """One psutil.Process object per (world, pid) kept for the life of the interpreter: the checks that create a fresh object
+    for every case also put the same case to an object that has already answered all the earlier cases of its chunk -- what
+    an object remembers from earlier calls must not change later answers (unless the statement says the answer is cached)."""
+    objs = {}
+    on = False
+
+    @classmethod
+    def get(cls, psutil, world, pid):
+        if not cls.on:
+            return psutil.Process(pid)
+        key = (id(world), pid)
+        o = cls.objs.get(key)
+        if o is None or o[0] is not world:
+            o = cls.objs[key] = (world, psutil.Process(pid))
+        return o[1]
+
+    @classmethod
+    def both(cls, fn, case, st, skip=lambda case: False):
+        """fn(case, st) with a fresh object, then (unless skip(case)) with the long-lived one"""
+        cls.on = False
+        bad = fn(case, st)
+        if not skip(case):
+            cls.on = True
+            try:
+                bad = bad + [("on-a-long-lived-object:" + c, m) for c, m in fn(case, st)]
+            finally:
+                cls.on = False
+        return bad
